@@ -127,4 +127,11 @@ func RunAll(run *hlib.Run, prop string, sigPrefixes []string, n int) {
 		}
 		CloseRace(run, rounds, 32)
 	}
+	if prop == "C12" {
+		rounds := 40
+		if run.Tier == "thorough" {
+			rounds = 800
+		}
+		StallClose(run, rounds)
+	}
 }
